@@ -121,8 +121,9 @@ harnesses! {
     fn c07_q_rev_dna_l4 [10] { rev_inplace!(Dna, oracle::DNA, 64, 4) }
     fn c07_q_rev_dna_l1 [10] { rev_inplace!(Dna, oracle::DNA, 64, 1) }
     // lengths that fill the last storage word exactly (32 Dna / 16 Iupac symbols) and one symbol more; the c07_x_* ones
-    // are in no tier: comp/revcomp of 32 Dna and comp of 16 Iupac symbols gave no verdict after 7-20 min / 6-9 GB
-    fn c07_p_rev_dna_l32 [70] { rev_inplace!(Dna, oracle::DNA, 64, 32) }
+    // are in no tier: comp/revcomp of 32 Dna, rev of 33 Dna and comp of 16 Iupac symbols gave no verdict after 7-20 min / 6-9 GB at unwind 70;
+    // rev of 32 Dna symbols holds at unwind 34 (7.7 GB) and is in the thorough tier
+    fn c07_t_rev_dna_l32 [36] { rev_inplace!(Dna, oracle::DNA, 64, 32) }
     fn c07_x_rev_dna_l33 [70] { rev_inplace!(Dna, oracle::DNA, 64, 33) }
     fn c07_x_comp_dna_l32 [70] { comp_inplace!(Dna, oracle::DNA, 0, 64, 32) }
     fn c07_x_comp_iupac_l16 [70] { comp_inplace!(Iupac, oracle::IUPAC, 1, 32, 16) }
